@@ -55,7 +55,15 @@ inductive Idx where
   | named (k : Nat)
   deriving DecidableEq, Repr
 
-/-- keyword arguments of `Group.__init__` (callables only by presence) -/
+/-- keyword arguments of `Group.__init__` (callables only by presence).
+
+`name` is the user's `name=` (`none`: the default `Group_<counter>`); it is a label for the
+profiling output and nothing requires it to be unique.  NO definition below reads it: the
+generated `compute` reaches a group's `condition` / `pre` / `post` through
+`self.groups[top]` / `self.groups[top].data[sub]`, i.e. through the group's POSITION in the
+group tree (`GId`; `_compute_group_map` is keyed by the group object, `get_condition_call` /
+`get_pre_call` / `get_post_call` look the object up) — never through its name.  The field is
+there so that this can be stated: `group_name_irrelevant` (Props/C03.lean). -/
 structure Attrs where
   real : Bool := true
   start : Idx := .num 0
@@ -67,6 +75,7 @@ structure Attrs where
   hasPre : Bool := false
   hasPost : Bool := false
   updateNnps : Bool := false
+  name : Option String := none
   deriving DecidableEq, Repr
 
 /-- a group of equations (no sub-groups) -/
@@ -88,7 +97,9 @@ inductive Program where
   | groups (gs : List Top)
   deriving DecidableEq, Repr
 
-/-- `self.groups[top]` or `self.groups[top].data[sub]` (`_compute_group_map`) -/
+/-- `self.groups[top]` or `self.groups[top].data[sub]`: the value `_compute_group_map` stores
+for the group OBJECT at that position of the group tree; the only way the generated code refers
+to a group (two groups with the same `name` are still two positions) -/
 structure GId where
   top : Nat
   sub : Option Nat
@@ -454,6 +465,19 @@ def Top.WF : Top → Prop
   | .parent a subs => a.iterOK ∧ ∀ l ∈ subs, l.WF
 
 def Program.WF (P : Program) : Prop := ∀ g ∈ specGroups P, g.WF
+
+/-! ## Names (profiling labels) -/
+
+def Attrs.eraseName (a : Attrs) : Attrs := { a with name := none }
+def Leaf.eraseNames (l : Leaf) : Leaf := { l with attrs := l.attrs.eraseName }
+def Top.eraseNames : Top → Top
+  | .leaf l => .leaf l.eraseNames
+  | .parent a subs => .parent a.eraseName (subs.map Leaf.eraseNames)
+/-- the program with every `name=` dropped: two programs with the same erasure differ only in
+how their groups are labelled (same names on several groups, top-level or sub-group, included) -/
+def Program.eraseNames : Program → Program
+  | .flat eqs => .flat eqs
+  | .groups gs => .groups (gs.map Top.eraseNames)
 
 /-- the number of passes any iterated group may need -/
 def Top.maxIter : Top → Nat
